@@ -34,6 +34,7 @@ for k, b in sorted(p.lib_bodies.items()):
             instrumented.append(k)
 json.dump({"_comment": "functions and constants present on the pinned tree (pretty def paths, generics stripped); signatures, struct fields and "
                        "which async fns are #[instrument]ed, used to undo pure renamings (pv/canon.py)",
+           "closures": sorted(k for k, b in p.lib_bodies.items() if b.kind == "Closure"),
            "fns": fns, "consts": consts, "sigs": sigs, "adt_fields": adt_fields, "async_fns": async_fns, "instrumented": instrumented},
           open(os.path.join(os.path.dirname(os.path.dirname(os.path.abspath(__file__))), "spec", "pinned.json"), "w"), indent=0)
 print(len(fns), "fns", len(consts), "consts")
